@@ -485,7 +485,7 @@ def searcher_state(kind, s):
 def init_output(kind, cs, s):
     from syne_tune.config_space import config_space_size
 
-    out = {"init": [enc_config(c) for c in s._points_to_evaluate], "size": config_space_size(cs)}
+    out = {"init": [enc_config(c) for c in s._points_to_evaluate], "size": config_space_size(cs), "wf": True}
     if kind == "grid":
         out["hp_keys"] = list(s.hp_keys)
         out["combos"] = [[enc_val(v) for v in t] for t in s.hp_values_combinations]
@@ -786,7 +786,7 @@ def run_pbt_scenario(spec):
     hdr = {"stream": "searcher", "kind": "pbt", "space": model_space(sch.config_space),
            "up": frac_str(1.2), "down": frac_str(0.8), "resample": frac_str(float(spec["resample_probability"]))}
     from syne_tune.config_space import config_space_size
-    lines.append((hdr, {"size": config_space_size(sch.config_space)}))
+    lines.append((hdr, {"size": config_space_size(sch.config_space), "wf": True}))
     real_explore = sch._explore
 
     def explore(config):
@@ -883,7 +883,7 @@ def run_gp_scenario(spec):
     lines, events = [], []
     from syne_tune.config_space import config_space_size
     hdr = {"stream": "searcher", "kind": "stateless", "space": model_space(cs)}
-    lines.append((hdr, {"size": config_space_size(cs)}))
+    lines.append((hdr, {"size": config_space_size(cs), "wf": True}))
     real_pick = bo._pick_from_locally_optimized
     picks = []
 
